@@ -1,7 +1,7 @@
-\* thorough emission: every edge two edits deep on the third core
-CONSTANTS NLeaf = 6  NBlk = 3  NAsm = 2  MaxLevel = 3  LMax = 20000  VMax = 100
+\* thorough: the same histories with edits at the centre assembly and at the core
+CONSTANTS NLeaf = 6  NBlk = 3  NAsm = 2  MaxLevel = 4  LMax = 20000  VMax = 100
 CONSTANTS Parent <- TCoreParent  Area <- TCoreArea  Height <- TCoreHeight  Sym <- TCoreSym  W <- Wt  N0 <- TCoreN0  H0 <- TCoreH0
-CONSTANTS Targets <- TCoreTargets  Vals <- ValsQ  Facs <- FacsQ  Masses <- MassesQ  Maps <- MapsQ  FracMaps <- FracMapsQ  AddMaps <- AddMapsQ  SetMaps <- SetMapsQ
+CONSTANTS Targets <- TCoreTargetsG  Vals <- ValsG  Facs <- None  Masses <- MassesG  Maps <- None  FracMaps <- None  AddMaps <- AddMapsG  SetMaps <- None
 CONSTANTS HDom <- HDom123  HTargets <- TCoreH7  HVals <- HVals2
 CONSTANTS LeafVolCut <- LeafVolCutEnv  ScaleRaises <- ScaleRaisesEnv
 INIT InitB
@@ -11,4 +11,6 @@ VIEW View
 ACTION_CONSTRAINT Emit
 INVARIANT EmitState
 INVARIANT TypeOK
+PROPERTY ReadBack
+PROPERTY Locality
 CHECK_DEADLOCK FALSE
